@@ -79,7 +79,7 @@ def _fold(e, fold):
 def verdict(rule, key, site, expr, want_text, what, fold=None):
     """record the three-way verdict on a rule"""
     if expr is None:
-        rule.violated(key, site, '%s: expression not found' % what)
+        rule.undecided(key, site, '%s: expression not found in a recognised place' % what)
         return 'missing'
     m = match(expr, want_text, fold)
     if m == 'same':
